@@ -420,13 +420,81 @@ Proof.
   destruct (nget (reqs st') r); cbn; [now rewrite andb_true_r | now rewrite andb_false_r].
 Qed.
 
+(** "cancel any hijacked requests immediately": the snapshot marks its upgraded entries *)
+Definition mark_hij (rs : list (nat * bool)) (rq : list (nat * req)) : list (nat * req) :=
+  fold_left (fun acc (rh : nat * bool) => if snd rh then
+               match nget acc (fst rh) with
+               | Some q => nset acc (fst rh) (mkR (r_phase q) true)
+               | None => acc end else acc) rs rq.
+
+Definition hij_in (r : nat) (rs : list (nat * bool)) : bool :=
+  existsb (fun rh => Nat.eqb r (fst rh) && snd rh) rs.
+
+Lemma hij_in_In : forall r rs, hij_in r rs = true <-> In (r, true) rs.
+Proof.
+  intros r rs. unfold hij_in. rewrite existsb_exists. split.
+  - intros ([r' h] & Hi & Hb). cbn in Hb. apply andb_prop in Hb. destruct Hb as [Hb ->].
+    apply Nat.eqb_eq in Hb. now subst.
+  - intros Hi. exists (r, true). split; auto. cbn. now rewrite Nat.eqb_refl.
+Qed.
+
+Lemma mark_hij_get : forall rs rq r,
+  nget (mark_hij rs rq) r =
+  match nget rq r with
+  | Some q => Some (mkR (r_phase q) (r_cancelled q || hij_in r rs))
+  | None => None
+  end.
+Proof.
+  unfold mark_hij, hij_in. induction rs as [|[r0 h] rs IH]; intros rq r; cbn [fold_left existsb fst snd].
+  - destruct (nget rq r) as [[p c]|]; cbn; auto. now rewrite orb_false_r.
+  - rewrite IH. destruct h; cbn [andb].
+    + destruct (nget rq r0) as [q0|] eqn:E0.
+      * rewrite nget_nset. destruct (Nat.eqb_spec r r0) as [->|Hne].
+        -- rewrite E0. cbn. f_equal. f_equal. now rewrite orb_true_r.
+        -- cbn. reflexivity.
+      * destruct (Nat.eqb_spec r r0) as [->|Hne]; [rewrite E0; reflexivity|reflexivity].
+    + rewrite andb_false_r. reflexivity.
+Qed.
+
+Lemma phase_of_markh : forall st st' rs r,
+  phase_of (upd_reqs st (mark_hij rs (reqs st'))) r = phase_of st' r.
+Proof.
+  intros. unfold phase_of, upd_reqs. cbn [reqs]. rewrite mark_hij_get. destruct (nget (reqs st') r); reflexivity.
+Qed.
+
+Lemma cancelled_markh : forall st st' rs r,
+  cancelled (upd_reqs st (mark_hij rs (reqs st'))) r =
+  cancelled st' r || (hij_in r rs && match nget (reqs st') r with Some _ => true | None => false end).
+Proof.
+  intros. unfold cancelled, upd_reqs. cbn [reqs]. rewrite mark_hij_get.
+  destruct (nget (reqs st') r); cbn; [now rewrite andb_true_r | now rewrite andb_false_r].
+Qed.
+
+(** the request is an upgraded connection: its target answered 101 *)
+Definition upgraded (s : state) (r : nat) : bool :=
+  match phase_of s r with Some (PReplied _ s101) => N.eqb s101 101 | _ => false end.
+
+Lemma flags_spec : forall s rs,
+  forallb (fun rh => Bool.eqb (snd rh) (upgraded s (fst rh))) rs = true ->
+  forall r h, In (r, h) rs -> h = upgraded s r.
+Proof.
+  intros s rs H r h Hi. rewrite forallb_forall in H. specialize (H _ Hi). cbn in H. now apply Bool.eqb_prop in H.
+Qed.
+
+Lemma upgraded_phase : forall s r, upgraded s r = true <-> exists t, phase_of s r = Some (PReplied t 101%N).
+Proof.
+  intros s r. unfold upgraded. split.
+  - destruct (phase_of s r) as [[]|]; try discriminate. intros H. apply N.eqb_eq in H. subst. eauto.
+  - intros (t & ->). reflexivity.
+Qed.
+
 Global Hint Rewrite targets_set_phase lbs_set_phase svcs_set_phase installed_set_phase tgt_names_set_phase clock_set_phase
   targets_taint reqs_taint svcs_taint installed_taint tgt_names_taint clock_taint
   phase_of_tick phase_of_upd_targets phase_of_upd_lbs phase_of_upd_svcs phase_of_upd_installed
   phase_of_set_tstate phase_of_set_drains phase_of_taint phase_of_set_phase phase_of_arrive phase_of_mark
   cancelled_tick cancelled_upd_targets cancelled_upd_lbs cancelled_upd_svcs cancelled_upd_installed
   cancelled_set_tstate cancelled_set_drains cancelled_taint cancelled_set_phase cancelled_mark
-  phase_of_mkSt cancelled_mkSt : st.
+  phase_of_mkSt cancelled_mkSt phase_of_markh cancelled_markh : st.
 
 Ltac fold_mark :=
   repeat match goal with
@@ -444,6 +512,26 @@ Ltac fold_mark :=
                                     | None => acc end) still rq) with (mark_cancelled still rq) in H
   end.
 
+Ltac fold_markh :=
+  repeat match goal with
+  | |- context [fold_left (fun acc (rh : nat * bool) => if snd rh then
+                   match nget acc (fst rh) with
+                   | Some q => nset acc (fst rh) (mkR (r_phase q) true)
+                   | None => acc end else acc) ?rs ?rq] =>
+    change (fold_left (fun acc (rh : nat * bool) => if snd rh then
+                   match nget acc (fst rh) with
+                   | Some q => nset acc (fst rh) (mkR (r_phase q) true)
+                   | None => acc end else acc) rs rq) with (mark_hij rs rq)
+  | H : context [fold_left (fun acc (rh : nat * bool) => if snd rh then
+                   match nget acc (fst rh) with
+                   | Some q => nset acc (fst rh) (mkR (r_phase q) true)
+                   | None => acc end else acc) ?rs ?rq] |- _ =>
+    change (fold_left (fun acc (rh : nat * bool) => if snd rh then
+                   match nget acc (fst rh) with
+                   | Some q => nset acc (fst rh) (mkR (r_phase q) true)
+                   | None => acc end else acc) rs rq) with (mark_hij rs rq) in H
+  end.
+
 Ltac fold_add_new :=
   repeat match goal with
   | |- context [fold_left (fun acc t => nset acc t (mkT ?lb TAdding [] [] false)) ?ts ?tg] =>
@@ -453,7 +541,7 @@ Ltac fold_add_new :=
   end.
 
 (** after [step_inv]: push projections through the explicit new state *)
-Ltac norm := fold_mark; fold_add_new; proj; autorewrite with st in *; proj.
+Ltac norm := fold_mark; fold_markh; fold_add_new; proj; autorewrite with st in *; proj.
 
 Ltac heap_cases :=
   repeat match goal with
